@@ -239,6 +239,17 @@ static void staticArrayCase(Rng& rng, unsigned maxOps, const char* tname) {
 	keepSample(std::string("StaticArrayT<") + tname + ">", C, l);
 }
 
+// dst += src where src is a DynamicArrayT of capacity S holding as many random elements as fit both
+template <typename T, unsigned C, unsigned S>
+static unsigned appendFrom(ffsm2::detail::DynamicArrayT<T, C>& a, std::vector<T>& m, Rng& rng, unsigned room) {
+	ffsm2::detail::DynamicArrayT<T, S> other;
+	const unsigned most = room < S ? room : S;
+	const unsigned cnt = rng.chance(1, 3) ? most : rng.below(most + 1);
+	for (unsigned t = 0; t < cnt; ++t) { const T v = mk<T>(rng.next()); other.emplace(v); m.push_back(v); }
+	a += other;
+	return cnt;
+}
+
 template <typename T, unsigned C>
 static void dynamicArrayCase(Rng& rng, unsigned maxOps, const char* tname) {
 	using DA = ffsm2::detail::DynamicArrayT<T, C>;
@@ -282,15 +293,20 @@ static void dynamicArrayCase(Rng& rng, unsigned maxOps, const char* tname) {
 			l.op("append", how); g_stats.add2("ops", "darr.append");
 			checkAll("append");
 		} else if (op < 8) {
-			// += other array (as much as fits)
-			DA other; std::vector<T> mo;
+			// += other array (as much as fits); the source has the same or a different capacity
 			const unsigned room = C - static_cast<unsigned>(m.size());
-			const unsigned cnt = rng.below(room + 1);
-			for (unsigned t = 0; t < cnt; ++t) { const T v = mk<T>(rng.next()); other.emplace(v); mo.push_back(v); }
-			a += other;
-			m.insert(m.end(), mo.begin(), mo.end());
+			constexpr unsigned S_HALF = (C + 1) / 2, S_LESS = C > 1 ? C - 1 : 1, S_MORE = C < 255 ? C + 1 : C, S_BIG = C < 128 ? 2 * C + 1 : 255;
+			unsigned cnt = 0, srcCap = C;
+			switch (rng.below(7)) {
+				case 0: cnt = appendFrom<T, C, 1>(a, m, rng, room); srcCap = 1; break;
+				case 1: cnt = appendFrom<T, C, S_HALF>(a, m, rng, room); srcCap = S_HALF; break;
+				case 2: cnt = appendFrom<T, C, S_LESS>(a, m, rng, room); srcCap = S_LESS; break;
+				case 3: cnt = appendFrom<T, C, S_MORE>(a, m, rng, room); srcCap = S_MORE; break;
+				case 4: cnt = appendFrom<T, C, S_BIG>(a, m, rng, room); srcCap = S_BIG; break;
+				default: cnt = appendFrom<T, C, C>(a, m, rng, room); break;
+			}
 			nontrivial = nontrivial || cnt > 1;
-			l.op("appendArray", cnt); g_stats.add2("ops", "darr.+=array");
+			l.op("appendArray", cnt); l.op("srcCapacity", srcCap); g_stats.add2("ops", srcCap == C ? "darr.+=array" : srcCap < C ? "darr.+=smaller-array" : "darr.+=larger-array");
 			checkAll("+=array");
 		} else if (op < 9) {
 			a.clear(); m.clear(); l.op("clear"); g_stats.add2("ops", "darr.clear");
